@@ -169,7 +169,7 @@ func (w *World) c08Loop() {
 			w.healed = true
 		}
 		if w.faultsOn() && w.plan.C08.HeadMode {
-			wts := []int{1000, 0, 0}
+			wts := []int{1000, 0, 0, 25}
 			if w.grown < f.MaxGrow {
 				wts[1] = f.GrowPerMille
 			}
@@ -183,6 +183,14 @@ func (w *World) c08Loop() {
 			case 2:
 				d := 1 + w.st.Draw(f.MaxReorgDepth, "reorg-depth")
 				w.chainReorg(w.plan.Sources[0].Name, d, max(1, d-1+w.st.Draw(3, "reorg-newlen")-1))
+				continue
+			case 3:
+				// simulated time passes (a listener's one-minute deadline, a
+				// poller's ticks) while nobody calls
+				d := []time.Duration{2 * time.Second, 11 * time.Second, 61 * time.Second}[w.st.Draw(3, "jump")]
+				w.logf("jump %v", d)
+				w.stat("time_jump", 1)
+				time.Sleep(d)
 				continue
 			}
 		}
